@@ -229,6 +229,12 @@ func (m *Module) start(reports chan *report) {
 		}
 		// set status
 		if err != nil {
+			// The module did not start, so it is prepared, but offline. Leaving
+			// it in StatusStarting would keep its dependencies from ever being
+			// stopped and the module itself from being started again.
+			m.Lock()
+			m.status = StatusOffline
+			m.Unlock()
 			m.Error(
 				fmt.Sprintf("%s:start-failed", m.Name),
 				fmt.Sprintf("Starting module %s failed", m.Name),
